@@ -408,6 +408,9 @@ class History:
     def cold_arms(self):
         return self._emit(["cold_arms"])
 
+    def policies(self):
+        return self._emit(["policies"])
+
     def _emit(self, op):
         self.ops.append(op)
         return op
